@@ -1,5 +1,5 @@
 """C15 — coroutine SharedMutex: writers exclude all, readers share, nobody is forgotten (structural clauses)."""
-from rules import lib_coro, lib_exec, lib_order
+from rules import c15_inv, lib_coro, lib_exec, lib_order
 from vlib import pathwalk
 
 SM = 'yaclib::detail::SharedMutexImpl'
@@ -31,7 +31,7 @@ class SMWalker(lib_exec.ExecWalker):
 
 
 def run(ctx):
-    fbs = ctx.facts(['K20', 'K20n'], kinds=('probe',), only=r'p_coro\.cpp$')
+    fbs = ctx.facts(['K20', 'K20n'], kinds=('probe',), only=r'p_coro\.cpp$', tests=r'/test/')
     rw = ctx.rule('R-WORD', 'protocol of _state / _readers_wait / spinlock word', minimum=20)
     ro = ctx.rule('R-ORDER', 'enter >= acquire, exit >= release, reader hand-over acq_rel, spinlock acquire/release',
                   minimum=20)
@@ -42,8 +42,14 @@ def run(ctx):
     rk = ctx.rule('R-CONST', 'bit-field constants agree: kWriter == kReader << 32; the amount armed in _readers_wait '
                   'is the reader half of the value this writer\'s own _state RMW returned', minimum=3)
     rn = ctx.rule('R-EFFECT.noblock', 'no blocking call other than the spinlock', minimum=16)
+    ri = ctx.rule('R-INV', 'queue accounting is an inductive invariant of every entry (A: writers list length == W - 1; '
+                  'B: _writers_prio == writers ahead of the first queued reader; C: _readers_size == |_readers|; '
+                  'E: readers queue only behind a writer; T: tail pointer; N: every unlinked writer is resumed or '
+                  'armed, an unlock that leaves writers resumes somebody; D: reader credits; U: no underflow), '
+                  'proved per path over linear pre-state expressions', minimum=32)
     for cfg, fb in sorted(fbs.items()):
         lib_order.check(ctx, fb, cfg, WORDS, rw, ro, rc)
+        c15_inv.check(ctx, fb, cfg, ri)
         fns = [f for f in fb.fn.values() if f.clsq == SM and f.cfg is not None]
         opts = {f.cls for f in fns}
         if len(opts) < 4:
